@@ -311,7 +311,27 @@ def check_consumers(run, F):
     return n, raw
 
 
+def check_trait_len(run, F):
+    """`TrustedLen::len` / `is_empty` provided methods: consumers must inspect the UPPER bound."""
+    fn = [f for f in F.fns if f.crate == 'tea_core' and f.qpath.endswith('trusted::TrustedLen::len')]
+    if not fn:
+        run.ob('TL.consumer', 'tea_core::vec_core::trusted::TrustedLen::len', 'TrustedLen::len present',
+               False, '', 'provided method not found')
+        return 0
+    fn = fn[0]
+    s = src(fn.hir)
+    run.ob('TL.consumer', fn, 'TrustedLen::len reads the upper size hint',
+           s == 'self.size_hint().1.unwrap()', fn.loc(), 'body `%s`' % s)
+    fe = [f for f in F.fns if f.crate == 'tea_core' and f.qpath.endswith('trusted::TrustedLen::is_empty')]
+    if fe:
+        s2 = src(fe[0].hir)
+        run.ob('TL.consumer', fe[0], 'TrustedLen::is_empty', s2 == '(self.len() == 0)', fe[0].loc(),
+               'body `%s`' % s2)
+    return 1
+
+
 def check_write_trust_iter(run, F):
+    check_trait_len(run, F)
     fn = F.one('UninitRefMut::write_trust_iter')
     env = {b['local']: b['name'] for p in fn.params for b in _pat_binds(p)}
     rows = dtree.table(fn.hir, env)
